@@ -42,6 +42,7 @@ type Peer struct {
 	// stream then ends in the middle of a frame and nothing that follows can be judged
 	WriteTimeout  time.Duration
 	WriteTimedOut int32
+	paused        int32
 }
 
 func Listen() (*Peer, error) {
@@ -68,8 +69,20 @@ func (p *Peer) Accept(timeout time.Duration) error {
 	return nil
 }
 
+// PauseReading makes the peer stop taking bytes off the connection (a peer that only sends).
+func (p *Peer) PauseReading() { atomic.StoreInt32(&p.paused, 1) }
+
 func (p *Peer) reader() {
 	for {
+		for atomic.LoadInt32(&p.paused) != 0 {
+			time.Sleep(20 * time.Millisecond)
+			p.mu.Lock()
+			closed := p.closed
+			p.mu.Unlock()
+			if closed {
+				return
+			}
+		}
 		var hdr [24]byte
 		if _, err := io.ReadFull(p.conn, hdr[:]); err != nil {
 			p.setClosed(err)
